@@ -1193,3 +1193,375 @@ Proof.
     rewrite (in_range_tests st k lo hi li hi_i n v' Hlo Hhi Hn El).
     destruct op; try discriminate; injection Erb as <- <- <- <-; cbn [andb]; rewrite ?andb_true_r; reflexivity.
 Qed.
+
+
+(** * (7) Factorized chains *)
+
+Section FtreeInd.
+  Variable P : ftree -> Prop.
+  Hypothesis Hleaf : forall c, P (FNode c None).
+  Hypothesis Hnode : forall c kids, Forall P kids -> P (FNode c (Some kids)).
+  Fixpoint ftree_ind' (t : ftree) : P t :=
+    match t with
+    | FNode c None => Hleaf c
+    | FNode c (Some kids) =>
+        Hnode c kids ((fix go (l : list ftree) : Forall P l :=
+                         match l with
+                         | [] => Forall_nil P
+                         | k :: r => Forall_cons k (ftree_ind' k) (go r)
+                         end) kids)
+    end.
+End FtreeInd.
+
+(** a path as (cells above the deepest entry, cells of the deepest entry) *)
+Definition pre (c : row) (pl : row * row) : row * row := (c ++ fst pl, snd pl).
+Fixpoint lpaths (t : ftree) : list (row * row) :=
+  match t with
+  | FNode c None => [([], c)]
+  | FNode c (Some kids) => flat_map (fun k => map (pre c) (lpaths k)) kids
+  end.
+Definition join (pl : row * row) : row := fst pl ++ snd pl.
+Definition lpathsF (f : list ftree) : list (row * row) := lpaths (FNode [] (Some f)).
+
+Lemma join_pre : forall c pl, join (pre c pl) = c ++ join pl.
+Proof. intros c pl. unfold join, pre. cbn [fst snd]. rewrite app_assoc. reflexivity. Qed.
+
+Lemma paths_lpaths : forall t, paths t = map join (lpaths t).
+Proof.
+  apply ftree_ind'.
+  - intros c. reflexivity.
+  - intros c kids H. cbn [paths lpaths].
+    induction H as [|k r Hk Hr IH]; [reflexivity|].
+    cbn [flat_map]. rewrite map_app, IH, Hk, !map_map. f_equal.
+    apply map_ext. intros pl. rewrite join_pre. reflexivity.
+Qed.
+
+Lemma map_app_nil : forall (l : list row), map (app []) l = l.
+Proof. induction l as [|a l IH]; cbn [map]; [reflexivity|]. rewrite IH. reflexivity. Qed.
+
+Lemma paths_forest : forall f, flat_map paths f = map join (lpathsF f).
+Proof.
+  intros f. unfold lpathsF. rewrite <- paths_lpaths. cbn [paths].
+  induction f as [|k r IH]; [reflexivity|]. cbn [flat_map]. rewrite map_app_nil, IH. reflexivity.
+Qed.
+
+Lemma leaves_lpaths : forall {A} (g : row * row -> row * row) (h : A -> row) (nb : list A),
+  flat_map (fun k => map g (lpaths k)) (map (fun te => FNode (h te) None) nb) = map (fun te => g ([], h te)) nb.
+Proof.
+  intros A g h nb. induction nb as [|a nb IH]; [reflexivity|].
+  cbn [map flat_map lpaths app]. rewrite IH. reflexivity.
+Qed.
+
+Section Grow.
+  Variables (st : store) (ci : bool) (idx : nat) (d : dir) (ty : option string).
+  Definition E (pl : row * row) : list (row * row) :=
+    match leaf_src idx (snd pl) with
+    | Ok (Some n) => map (fun te => (join pl, [CEdge (snd te); CNode (fst te)])) (neighbors st ci n d ty)
+    | _ => []
+    end.
+  Definition srcs_ok (L : list (row * row)) : Prop :=
+    forall pl, List.In pl L -> exists n, leaf_src idx (snd pl) = Ok (Some n).
+
+  Lemma E_pre : forall c pl, E (pre c pl) = map (pre c) (E pl).
+  Proof.
+    intros c pl. unfold E. cbn [pre snd].
+    destruct (leaf_src idx (snd pl)) as [[n|]|]; try reflexivity.
+    rewrite map_map. apply map_ext. intros te. rewrite join_pre. reflexivity.
+  Qed.
+
+  Lemma flat_map_E_pre : forall c L, flat_map E (map (pre c) L) = map (pre c) (flat_map E L).
+  Proof.
+    intros c L. induction L as [|a L IH]; [reflexivity|].
+    cbn [map flat_map]. rewrite map_app, E_pre, IH. reflexivity.
+  Qed.
+
+  Lemma grow_kids : forall c kids,
+    grow st ci idx d ty (FNode c (Some kids)) =
+    do r <- grow_forest st ci idx d ty kids; Ok (FNode c (Some (fst r)), snd r).
+  Proof.
+    intros c kids. cbn [grow]. f_equal.
+    induction kids as [|k r IH]; [reflexivity|].
+    cbn [grow_forest]. rewrite IH. reflexivity.
+  Qed.
+
+  Definition grow_ok (t : ftree) : Prop :=
+    srcs_ok (lpaths t) ->
+    exists t', grow st ci idx d ty t = Ok (t', List.length (lpaths t')) /\ lpaths t' = flat_map E (lpaths t).
+
+  Lemma grow_forest_spec : forall c kids, Forall grow_ok kids ->
+    srcs_ok (flat_map (fun k => map (pre c) (lpaths k)) kids) ->
+    exists f', grow_forest st ci idx d ty kids
+               = Ok (f', List.length (flat_map (fun k => map (pre c) (lpaths k)) f')) /\
+               flat_map (fun k => map (pre c) (lpaths k)) f'
+               = flat_map E (flat_map (fun k => map (pre c) (lpaths k)) kids).
+  Proof.
+    intros c kids H. induction H as [|k r Hk Hr IH]; intros Hs.
+    - exists []. split; reflexivity.
+    - cbn [flat_map] in Hs.
+      assert (Hs1 : srcs_ok (lpaths k)).
+      { intros pl Hpl. destruct (Hs (pre c pl)) as [n Hn]; [apply in_or_app; left; apply in_map; exact Hpl|].
+        exists n. exact Hn. }
+      assert (Hs2 : srcs_ok (flat_map (fun k => map (pre c) (lpaths k)) r)).
+      { intros pl Hpl. apply Hs. apply in_or_app. right. exact Hpl. }
+      destruct (Hk Hs1) as (k' & Hk1 & Hk2). destruct (IH Hs2) as (f'' & Hf1 & Hf2).
+      exists (k' :: f''). cbn [grow_forest]. rewrite Hk1, Hf1. cbn [rbind fst snd]. split.
+      + f_equal. f_equal. cbn [flat_map]. rewrite app_length, map_length. reflexivity.
+      + cbn [flat_map]. rewrite flat_map_app, Hk2, flat_map_E_pre, Hf2. reflexivity.
+  Qed.
+
+  Lemma grow_spec : forall t, grow_ok t.
+  Proof.
+    apply ftree_ind'.
+    - intros c Hs. destruct (Hs ([], c) (or_introl eq_refl)) as [n Hn]. cbn [snd] in Hn.
+      cbn [grow]. rewrite Hn. cbn [rbind].
+      eexists. split.
+      + f_equal. f_equal. cbn [lpaths]. rewrite (leaves_lpaths (pre c)). rewrite !map_length. reflexivity.
+      + cbn [lpaths]. rewrite (leaves_lpaths (pre c)). cbn [flat_map]. rewrite app_nil_r.
+        unfold E. cbn [snd]. rewrite Hn. apply map_ext. intros te.
+        unfold pre, join. cbn [fst snd app]. rewrite app_nil_r. reflexivity.
+    - intros c kids H Hs. cbn [lpaths] in Hs.
+      destruct (grow_forest_spec c kids H Hs) as (f' & Hf1 & Hf2).
+      rewrite grow_kids, Hf1. cbn [rbind fst snd].
+      exists (FNode c (Some f')). split; [reflexivity|]. cbn [lpaths]. exact Hf2.
+  Qed.
+
+  Lemma grow_forest_top : forall f, srcs_ok (lpathsF f) ->
+    exists f', grow_forest st ci idx d ty f = Ok (f', List.length (lpathsF f')) /\
+               lpathsF f' = flat_map E (lpathsF f).
+  Proof.
+    intros f Hs. unfold lpathsF in *. cbn [lpaths] in *.
+    apply grow_forest_spec; [|exact Hs].
+    apply Forall_forall. intros t _. apply grow_spec.
+  Qed.
+
+  Lemma expand_match : forall cs from L,
+    (forall x, neighbors st true x d ty = neighbors st ci x d ty) ->
+    (forall pl n, List.In pl L -> src_of cs from (join pl) = Ok n -> leaf_src idx (snd pl) = Ok (Some n)) ->
+    forall rs1, expand_rows st true cs from d ty (map join L) = Ok rs1 ->
+    srcs_ok L /\ rs1 = map join (flat_map E L).
+  Proof.
+    intros cs from L Hci. unfold expand_rows.
+    induction L as [|a L IH]; intros Hag rs1 Hex.
+    - cbn in Hex. injection Hex as <-. split; [intros pl []|reflexivity].
+    - cbn [map rmapM] in Hex.
+      destruct (src_of cs from (join a)) as [n|] eqn:Es; cbn [rbind] in Hex; [|discriminate].
+      destruct (rmapM _ (map join L)) as [y|] eqn:Er; cbn [rbind] in Hex; [|discriminate].
+      injection Hex as <-.
+      destruct (IH (fun pl n Hpl => Hag pl n (or_intror Hpl)) y eq_refl) as [Hs ->].
+      pose proof (Hag a n (or_introl eq_refl) Es) as Hl.
+      split.
+      + intros pl [<-|Hpl]; [exists n; exact Hl|apply Hs; exact Hpl].
+      + cbn [flat_map]. rewrite map_app. f_equal.
+        unfold E. rewrite Hl, map_map, Hci. reflexivity.
+  Qed.
+
+  Lemma one_step : forall cs from f rs1,
+    (forall x, neighbors st true x d ty = neighbors st ci x d ty) ->
+    (forall pl n, List.In pl (lpathsF f) -> src_of cs from (join pl) = Ok n -> leaf_src idx (snd pl) = Ok (Some n)) ->
+    expand_rows st true cs from d ty (map join (lpathsF f)) = Ok rs1 ->
+    exists f1, grow_forest st ci idx d ty f = Ok (f1, List.length (lpathsF f1)) /\
+               lpathsF f1 = flat_map E (lpathsF f) /\ rs1 = map join (lpathsF f1).
+  Proof.
+    intros cs from f rs1 Hci Hag Hex.
+    destruct (expand_match cs from (lpathsF f) Hci Hag rs1 Hex) as [Hs ->].
+    destruct (grow_forest_top f Hs) as (f1 & H1 & H2).
+    exists f1. split; [exact H1|]. split; [exact H2|]. rewrite H2. reflexivity.
+  Qed.
+
+  Lemma E_shape : forall L pl', List.In pl' (flat_map E L) ->
+    exists pl e n, List.In pl L /\ pl' = (join pl, [CEdge e; CNode n]).
+  Proof.
+    intros L pl' H. apply in_flat_map in H. destruct H as (pl & Hpl & H).
+    unfold E in H. destruct (leaf_src idx (snd pl)) as [[n|]|]; try contradiction.
+    apply in_map_iff in H. destruct H as (te & <- & _).
+    exists pl, (snd te), (fst te). auto.
+  Qed.
+End Grow.
+
+
+Lemma flat_steps_cols : forall st steps b t, flat_steps st b steps = Ok t ->
+  cols t = cols b ++ flat_map s_cols steps.
+Proof.
+  intros st steps. induction steps as [|s r IH]; intros b t H.
+  - cbn in H. injection H as <-. cbn [flat_map]. rewrite app_nil_r. reflexivity.
+  - cbn [flat_steps] in H.
+    destruct (of_opt (pos_first (s_from s) (cols b))); cbn [rbind] in H; [|discriminate].
+    destruct (expand_rows st true (cols b) (s_from s) (s_dir s) (s_type s) (rows b)) as [rs|]; cbn [rbind] in H; [|discriminate].
+    apply IH in H. cbn [cols mkT] in H. rewrite H. cbn [flat_map]. rewrite app_assoc. reflexivity.
+Qed.
+
+Lemma flat_steps_nil_rows : forall st steps b t, rows b = [] -> flat_steps st b steps = Ok t -> rows t = [].
+Proof.
+  intros st steps. induction steps as [|s r IH]; intros b t Hb H.
+  - cbn in H. injection H as <-. exact Hb.
+  - cbn [flat_steps] in H.
+    destruct (of_opt (pos_first (s_from s) (cols b))); cbn [rbind] in H; [|discriminate].
+    rewrite Hb in H. cbn [expand_rows rmapM rbind] in H.
+    apply IH in H; [exact H|reflexivity].
+Qed.
+
+Lemma fact_steps_le : forall st i0 steps is_first f added f' a,
+  fact_steps st i0 steps is_first f added = Ok (f', a) -> (added <= a <= added + List.length steps)%nat.
+Proof.
+  intros st i0 steps. induction steps as [|s r IH]; intros is_first f added f' a H.
+  - cbn in H. injection H as <- <-. cbn. lia.
+  - cbn [fact_steps] in H.
+    destruct (grow_forest st is_first (if is_first then i0 else 1%nat) (s_dir s) (s_type s) f) as [g|]; cbn [rbind] in H; [|discriminate].
+    destruct (snd g); apply IH in H; cbn [List.length]; lia.
+Qed.
+
+Lemma pos_first_last : forall seen e to, ~ List.In to seen -> to <> e ->
+  pos_first to (seen ++ [e; to]) = Some (List.length seen + 1)%nat.
+Proof.
+  intros seen e to Hn Hne. induction seen as [|y seen IH].
+  - cbn [app pos_first List.length]. 
+    destruct (String.eqb to e) eqn:E1; [apply String.eqb_eq in E1; contradiction|].
+    rewrite String.eqb_refl. reflexivity.
+  - cbn [app pos_first List.length].
+    destruct (String.eqb to y) eqn:E1.
+    + apply String.eqb_eq in E1. exfalso. apply Hn. left. symmetry. exact E1.
+    + rewrite IH; [reflexivity|]. intros H. apply Hn. right. exact H.
+Qed.
+
+Definition type_cond (st : store) (s : step) : bool :=
+  match s_type s with
+  | Some t => forallb (fun e => implb (eq_ci (etype e) t) (String.eqb (etype e) t)) (edges st)
+  | None => true end.
+
+Lemma neighbors_ci : forall st s x, type_cond st s = true ->
+  neighbors st true x (s_dir s) (s_type s) = neighbors st false x (s_dir s) (s_type s).
+Proof.
+  intros st s x H. unfold neighbors. apply filter_ext. intros te. f_equal.
+  unfold type_cond in H. unfold type_ok. destruct (s_type s) as [t|]; [|reflexivity].
+  destruct (get_edge st (snd te)) as [ed|] eqn:Eg; [|reflexivity].
+  unfold get_edge in Eg. apply find_some in Eg. destruct Eg as [Hin _].
+  rewrite forallb_forall in H. specialize (H ed Hin).
+  destruct (String.eqb (etype ed) t) eqn:E1.
+  - apply String.eqb_eq in E1. unfold eq_ci. rewrite E1. apply String.eqb_refl.
+  - destruct (eq_ci (etype ed) t); [discriminate|reflexivity].
+Qed.
+
+(** the steps after the first *)
+Lemma fact_steps_flat_later : forall st i0 steps f cs rs added f' a t,
+  rs = map join (lpathsF f) ->
+  (forall pl, List.In pl (lpathsF f) -> exists e n, snd pl = [CEdge e; CNode n]) ->
+  (forall pl, List.In pl (lpathsF f) -> List.length (join pl) = List.length cs) ->
+  (exists seen e to, cs = seen ++ [e; to] /\ ~ List.In to seen /\ to <> e /\ steps_path cs (Some to) steps) ->
+  forallb (type_cond st) steps = true ->
+  flat_steps st (mkT cs rs) steps = Ok t ->
+  fact_steps st i0 steps false f added = Ok (f', a) -> a = (added + List.length steps)%nat ->
+  flat_map paths f' = rows t.
+Proof.
+  intros st i0 steps. induction steps as [|s r IH];
+    intros f cs rs added f' a t Hrs Hleaf Hlen Hcs Htc Hflat Hfact Ha.
+  - cbn in Hflat, Hfact. injection Hflat as <-. injection Hfact as <- <-.
+    cbn [rows mkT]. rewrite Hrs. apply paths_forest.
+  - destruct Hcs as (seen & e & to & Ecs & Hnin & Hne & Hsp).
+    cbn [steps_path] in Hsp. destruct Hsp as [Hfrom Hsp].
+    destruct (s_cols s) as [|e2 [|to2 [|? ?]]] eqn:Esc; try contradiction.
+    destruct Hsp as (Hnin2 & Hne2 & Hsp).
+    cbn [forallb] in Htc. apply andb_true_iff in Htc. destruct Htc as [Htc1 Htc2].
+    cbn [flat_steps cols rows mkT] in Hflat. rewrite Hfrom in Hflat.
+    assert (Hpos : pos_first to cs = Some (List.length seen + 1)%nat)
+      by (rewrite Ecs; apply pos_first_last; assumption).
+    rewrite Hpos in Hflat. cbn [of_opt rbind] in Hflat.
+    destruct (expand_rows st true cs to (s_dir s) (s_type s) rs) as [rs1|] eqn:Eex; cbn [rbind] in Hflat; [|discriminate].
+    rewrite Hrs in Eex.
+    destruct (one_step st false 1%nat (s_dir s) (s_type s) cs to f rs1) as (f1 & Hg & Hl1 & Hrs1).
+    + intros x. apply neighbors_ci. exact Htc1.
+    + intros pl n Hpl Hsrc. destruct (Hleaf pl Hpl) as (e' & n' & Hsn).
+      pose proof (Hlen pl Hpl) as Hl. unfold join in Hl, Hsrc. rewrite Hsn in Hl, Hsrc.
+      rewrite Ecs, !app_length in Hl. cbn [List.length] in Hl.
+      unfold src_of in Hsrc. rewrite Hpos in Hsrc. cbn [of_opt rbind] in Hsrc.
+      rewrite nth_error_app2 in Hsrc by lia.
+      replace (List.length seen + 1 - List.length (fst pl))%nat with 1%nat in Hsrc by lia.
+      cbn [nth_error of_opt rbind cell_node_id] in Hsrc. injection Hsrc as <-.
+      rewrite Hsn. reflexivity.
+    + exact Eex.
+    + cbn [fact_steps] in Hfact. rewrite Hg in Hfact. cbn [rbind fst snd] in Hfact.
+      destruct (List.length (lpathsF f1)) eqn:Ecnt.
+      * apply fact_steps_le in Hfact. cbn [List.length] in Ha. lia.
+      * rewrite Esc in Hflat.
+        apply (IH f1 (cs ++ [e2; to2]) rs1 (S added) f' a t Hrs1); try assumption.
+        -- intros pl' Hpl'. rewrite Hl1 in Hpl'. apply E_shape in Hpl'.
+           destruct Hpl' as (pl & e' & n' & _ & ->). exists e', n'. reflexivity.
+        -- intros pl' Hpl'. rewrite Hl1 in Hpl'. apply E_shape in Hpl'.
+           destruct Hpl' as (pl & e' & n' & Hpl & ->). unfold join at 1. cbn [fst snd].
+           rewrite !app_length, (Hlen pl Hpl). reflexivity.
+        -- exists cs, e2, to2. auto.
+        -- cbn [List.length] in Ha. lia.
+Qed.
+
+Definition rows_wf (b : tbl) : Prop := Forall (fun r => List.length r = List.length (cols b)) (rows b).
+
+(** the statement as given is false for a base table with a row longer than its column list: the
+    flat second step reads the column of the previous target by NAME (position in the column list),
+    the factorized one reads the last cell *)
+Example fact_chain_flat_needs_wf :
+  let st := mkStore [mkNode 1 [] []; mkNode 2 [] []; mkNode 3 [] []; mkNode 4 [] []; mkNode 5 [] []]
+                    [mkEdge 10 1 2 "T" []; mkEdge 11 5 3 "T" []; mkEdge 12 2 4 "T" []] [] [] in
+  let b := mkT ["x"%string] [[CNode 1; CNode 7; CNode 5]] in
+  let steps := [mkStep "x" Out None ["e1"; "y"]%string; mkStep "y" Out None ["e2"; "z"]%string] in
+  steps <> [] /\ steps_path (cols b) None steps /\ steps_no_type_case st steps = true /\
+  match flat_steps st b steps, fact_chain st b steps with
+  | Ok t, Ok (a, rs) => a = List.length steps /\ rs <> rows t
+  | _, _ => False
+  end.
+Proof.
+  cbv zeta. split; [discriminate|]. split.
+  - cbn. repeat split; try reflexivity; try discriminate; try (intros [H|[]]; discriminate); try (intros [H|[H|[H|[]]]]; discriminate).
+  - split; [reflexivity|]. vm_compute. split; [reflexivity|discriminate].
+Qed.
+
+Lemma fact_chain_flat : forall st b steps t a rs,
+  rows_wf b ->
+  steps <> [] -> steps_path (cols b) None steps -> steps_no_type_case st steps = true ->
+  flat_steps st b steps = Ok t -> fact_chain st b steps = Ok (a, rs) ->
+  (a = List.length steps \/ rows b = []) ->
+  rs = rows t /\ chain_cols b steps = cols t.
+Proof.
+  intros st b steps t a rs Hwf Hne Hsp Htc Hflat Hfact Ha.
+  split; [|unfold chain_cols; symmetry; eapply flat_steps_cols; exact Hflat].
+  destruct steps as [|s0 r]; [congruence|]. clear Hne.
+  unfold fact_chain in Hfact.
+  destruct (pos_first (s_from s0) (cols b)) as [i0|] eqn:Epos; cbn [of_opt rbind] in Hfact; [|discriminate].
+  destruct (rows b) as [|r0 rest] eqn:Erows.
+  - injection Hfact as <- <-. symmetry. eapply flat_steps_nil_rows; eassumption.
+  - destruct Ha as [Ha|Ha]; [|discriminate]. rewrite <- Erows in *. clear Erows r0 rest.
+    destruct (fact_steps st i0 (s0 :: r) true (map (fun r1 => FNode r1 None) (rows b)) 0) as [[f' a']|] eqn:Efs;
+      cbn [rbind fst snd] in Hfact; [|discriminate].
+    injection Hfact as <- <-.
+    set (f0 := map (fun r1 => FNode r1 None) (rows b)) in *.
+    assert (HL0 : lpathsF f0 = map (fun r1 => ([], r1)) (rows b)).
+    { unfold lpathsF, f0. cbn [lpaths]. rewrite (leaves_lpaths (pre []) (fun r1 : row => r1)). reflexivity. }
+    assert (Hrows : rows b = map join (lpathsF f0)).
+    { rewrite HL0, map_map. symmetry. apply map_id. }
+    cbn [steps_path] in Hsp. destruct Hsp as [_ Hsp].
+    destruct (s_cols s0) as [|e [|to [|? ?]]] eqn:Esc; try contradiction.
+    destruct Hsp as (Hnin & Hne & Hsp).
+    cbn [flat_steps] in Hflat. rewrite Epos in Hflat. cbn [of_opt rbind] in Hflat.
+    destruct (expand_rows st true (cols b) (s_from s0) (s_dir s0) (s_type s0) (rows b)) as [rs1|] eqn:Eex;
+      cbn [rbind] in Hflat; [|discriminate].
+    rewrite Hrows in Eex.
+    destruct (one_step st true i0 (s_dir s0) (s_type s0) (cols b) (s_from s0) f0 rs1) as (f1 & Hg & Hl1 & Hrs1).
+    + reflexivity.
+    + intros pl n Hpl Hsrc. rewrite HL0 in Hpl. apply in_map_iff in Hpl. destruct Hpl as (r1 & <- & _).
+      unfold join in Hsrc. cbn [fst snd app] in Hsrc |- *.
+      unfold src_of in Hsrc. rewrite Epos in Hsrc. cbn [of_opt rbind] in Hsrc. unfold leaf_src.
+      destruct (nth_error r1 i0) as [c|]; cbn [of_opt rbind] in Hsrc; [|discriminate].
+      destruct (cell_node_id c); cbn [of_opt] in Hsrc; [|discriminate]. injection Hsrc as <-. reflexivity.
+    + exact Eex.
+    + cbn [fact_steps] in Efs. rewrite Hg in Efs. cbn [rbind fst snd] in Efs.
+      destruct (List.length (lpathsF f1)) eqn:Ecnt.
+      * apply fact_steps_le in Efs. cbn [List.length] in Ha. lia.
+      * rewrite Esc in Hflat.
+        apply (fact_steps_flat_later st i0 r f1 (cols b ++ [e; to]) rs1 1%nat f' a' t Hrs1); try assumption.
+        -- intros pl' Hpl'. rewrite Hl1 in Hpl'. apply E_shape in Hpl'.
+           destruct Hpl' as (pl & e' & n' & _ & ->). exists e', n'. reflexivity.
+        -- intros pl' Hpl'. rewrite Hl1 in Hpl'. apply E_shape in Hpl'.
+           destruct Hpl' as (pl & e' & n' & Hpl & ->). unfold join at 1. cbn [fst snd].
+           rewrite !app_length. cbn [List.length]. f_equal.
+           rewrite HL0 in Hpl. apply in_map_iff in Hpl. destruct Hpl as (r1 & <- & Hr1).
+           unfold join. cbn [fst snd app]. unfold rows_wf in Hwf. rewrite Forall_forall in Hwf. apply Hwf. exact Hr1.
+        -- exists (cols b), e, to. auto.
+Qed.
